@@ -130,3 +130,43 @@ Proof.
     apply (perm_trans (l' := [2; 1; 0])); [apply perm_swap|].
     apply perm_skip; apply perm_swap.
 Qed.
+
+(* the hypothesis of the library instance is met by that pool *)
+Example C16_example_library : writes_within library_written_vars ex_pool.
+Proof. intros p g Hp W. exfalso. exact (proj1 C16_example p g Hp W). Qed.
+
+(* non-vacuity of the disjoint-footprint theorem: two calls that do write, each its own variable *)
+Definition va : var := [97%N].
+Definition vb : var := [98%N].
+Definition ex_pool_w : list (prog N N) :=
+  [ Write va 1%N (Read va (fun v => Done v));
+    Write vb 2%N (Local (Read vb (fun v => Done (v + 10)%N))) ].
+
+Example C16_example_footprints :
+  independent ex_pool_w /\
+  finished (run [0; 1; 1; 0; 1] (fun _ => 0%N, ex_pool_w)) = true /\
+  results (run [0; 1; 1; 0; 1] (fun _ => 0%N, ex_pool_w)) = [Some 1; Some 12]%N /\
+  results (seq_run [1; 0] (fun _ => 0%N, ex_pool_w)) = [Some 1; Some 12]%N /\
+  fst (run [0; 1; 1; 0; 1] (fun _ => 0%N, ex_pool_w)) vb = 2%N.
+Proof.
+  split; [|repeat split; vm_compute; reflexivity].
+  intros i j pi pj g Hij Ei Ej W.
+  destruct i as [|[|i]]; destruct j as [|[|j]]; simpl in Ei, Ej; try congruence;
+    try (destruct i; discriminate); try (destruct j; discriminate);
+    injection Ei as <-; injection Ej as <-.
+  - (* thread 0 writes only va; thread 1 touches only vb *)
+    inversion W as [| g0 v k g' W1 | |]; subst.
+    + split; intro H.
+      * inversion H as [| | | g0 v k g' H1]; subst. inversion H1 as [| |k g0 H2|]; subst.
+        inversion H2 as [|g0 k v g' H3| |]; subst. inversion H3.
+      * inversion H as [| g0 v k g' H1 | |]; subst. inversion H1 as [| |k g0 H2|]; subst.
+        inversion H2 as [| | |g0 k v g' H3]; subst. inversion H3.
+    + inversion W1 as [| | |g0 k v g' W2]; subst. inversion W2.
+  - inversion W as [| g0 v k g' W1 | |]; subst.
+    + split; intro H.
+      * inversion H as [| | | g0 v k g' H1]; subst.
+        inversion H1 as [|g0 k v g' H3| |]; subst. inversion H3.
+      * inversion H as [| g0 v k g' H1 | |]; subst.
+        inversion H1 as [| | |g0 k v g' H3]; subst. inversion H3.
+    + inversion W1 as [| |k g0 W2|]; subst. inversion W2 as [| | |g0 k v g' W3]; subst. inversion W3.
+Qed.
